@@ -32,6 +32,7 @@ namespace {
 constexpr uint64_t kLive = 0x11ce5ca11ab1e000ULL, kDead = 0xdeadca11ab1edeadULL;
 
 struct Cover {
+    uint64_t reusedThreadObjects = 0, maxStartsOfOneObject = 0;
     uint64_t bodyDoneBeforeStartReturned = 0, creationFailuresInjected = 0, detached = 0;
     uint64_t starts = 0, lateStarts = 0, polledFinishes = 0, runnables = 0, canaryChecks = 0, argChecks = 0, copiesMade = 0, nontrivialCases = 0;
     std::map<std::string, uint64_t> kinds;
@@ -322,6 +323,63 @@ void runCase(uint64_t c, rt::Rng rng) {
 #endif
 }
 
+
+// One Thread object started and joined again and again (up to 520 times: whatever the object counts per start must not
+// run out). The statement speaks of "a Thread started with a callable"; for a restarted object this harness judges only
+// what holds for every single start: the callable of that start ran exactly once, on another thread, join() returned
+// after it, and completion is reported after join(). (isFinished() BEFORE join is not judged here: the library never
+// resets its flag, a restarted object reports the previous run.)
+std::atomic<int> gReuseFnCalls{0};
+std::atomic<int> gReuseFnTid{0};
+void reuseFn() { gReuseFnTid.store((int) syscall(SYS_gettid)); gReuseFnCalls.fetch_add(1); }
+struct ReuseRunnable : tulz::Runnable {
+    std::atomic<int> *calls, *dtors, *tid;
+    ReuseRunnable(std::atomic<int> *c, std::atomic<int> *d, std::atomic<int> *t) : calls(c), dtors(d), tid(t) {}
+    ~ReuseRunnable() override { dtors->fetch_add(1); }
+    void run() override { tid->store((int) syscall(SYS_gettid)); calls->fetch_add(1); }
+};
+void runReuseCase(uint64_t c, rt::Rng rng) {
+    static const int lens[] = {257, 300, 520};
+    int n = rng.chance(250) ? lens[rng.below(3)] : (int) rng.range(2, 24);
+    char d[160];
+    snprintf(d, sizeof d, "one Thread object started and joined %d times", n);
+    gDesc = d;
+    rt::crumb("%s", d);
+#if HAVE_SPY
+    spy::Delays dl;
+    if (rng.chance(400)) { dl.threadStart = 300; dl.threadStartMaxUs = 200; }
+    spy::configure(dl, rt::mix(rt::st().seed, c));
+#endif
+    int starterTid = (int) syscall(SYS_gettid);
+    Thread t;
+    std::atomic<int> calls{0}, dtors{0}, tid{0};
+    int fnBefore = gReuseFnCalls.load();
+    int expectFn = 0, expectCalls = 0, expectDtors = 0;
+    bool bad = false;
+    for (int k = 0; k < n && !bad; ++k) {
+        unsigned kind = (unsigned) rng.below(3);
+        int ranOn = 0;
+        if (kind == 0) { t.start(&reuseFn); ++expectFn; }
+        else if (kind == 1) { t.start([&calls, &tid]() { tid.store((int) syscall(SYS_gettid)); calls.fetch_add(1); }); ++expectCalls; }
+        else { t.start(new ReuseRunnable(&calls, &dtors, &tid)); ++expectCalls; ++expectDtors; }
+        ++C.starts;
+        if (!t.isJoinable()) { fail("not-joinable", "restart", std::string(d) + ": not joinable after start #" + std::to_string(k + 1)); bad = true; break; }
+        t.join();
+        ranOn = kind == 0 ? gReuseFnTid.load() : tid.load();
+        if (gReuseFnCalls.load() - fnBefore != expectFn || calls.load() != expectCalls) { fail("invocation-count", "restart", std::string(d) + ": after start #" + std::to_string(k + 1) + " and join() the callables ran " + std::to_string(gReuseFnCalls.load() - fnBefore + calls.load()) + " times in total, expected " + std::to_string(expectFn + expectCalls)); bad = true; }
+        else if (dtors.load() != expectDtors) { fail("runnable-destruction", "restart", std::string(d) + ": " + std::to_string(dtors.load()) + " Runnables destroyed after start #" + std::to_string(k + 1) + " and join(), expected " + std::to_string(expectDtors)); bad = true; }
+        else if (ranOn == starterTid) { fail("not-a-new-thread", "restart", std::string(d) + ": start #" + std::to_string(k + 1) + " ran its callable on the starting thread"); bad = true; }
+        else if (!t.isFinished() || t.isRunning()) { fail("not-finished-after-join", "restart", std::string(d) + ": after start #" + std::to_string(k + 1) + " and join(), isFinished() is false / isRunning() is true: completion is never reported"); bad = true; }
+    }
+    ++C.reusedThreadObjects;
+    C.maxStartsOfOneObject = std::max<uint64_t>(C.maxStartsOfOneObject, (uint64_t) n);
+    if (!bad) { rt::Hash h; h.add(0x7e05eULL); h.add((uint64_t) n); C.fps.push_back(h.get()); ++C.nontrivialCases; }
+#if HAVE_SPY
+    spy::disableDelays();
+    spy::recycle();
+#endif
+}
+
 void onDeadlock(const std::string &desc) {
     rt::violation("C20", "quiescent-deadlock", "join", gDesc + ": every thread is blocked and nothing can wake it: " + desc);
 }
@@ -336,13 +394,15 @@ int main(int argc, char **argv) {
 #endif
     for (uint64_t c = rt::st().from; c < rt::st().from + rt::st().count; ++c) {
         rt::setCase(c);
+        rt::Rng pick(rt::mix(rt::st().seed, c ^ 0x5eed));
+        if (pick.chance((unsigned) rt::optInt("reuse", 15))) { runReuseCase(c, rt::Rng(rt::mix(rt::st().seed, c))); continue; }
         runCase(c, rt::Rng(rt::mix(rt::st().seed, c)));
     }
 #if HAVE_SPY
     spy::stopMonitor();
 #endif
     rt::dumpFingerprints(C.fps);
-    rt::finish(rt::Json().kv("engine", "h_thread").kv("starts", C.starts).kv("lateStarts", C.lateStarts).kv("bodyDoneBeforeStartReturned", C.bodyDoneBeforeStartReturned).kv("threadCreationFailuresInjected", C.creationFailuresInjected).kv("detachedThenJoined", C.detached).kv("polledFinishes", C.polledFinishes)
+    rt::finish(rt::Json().kv("engine", "h_thread").kv("starts", C.starts).kv("lateStarts", C.lateStarts).kv("bodyDoneBeforeStartReturned", C.bodyDoneBeforeStartReturned).kv("threadCreationFailuresInjected", C.creationFailuresInjected).kv("detachedThenJoined", C.detached).kv("polledFinishes", C.polledFinishes).kv("reusedThreadObjects", C.reusedThreadObjects).kv("maxStartsOfOneObject", C.maxStartsOfOneObject)
                    .kv("runnables", C.runnables).kv("canaryChecks", C.canaryChecks).kv("argumentIdentityChecks", C.argChecks)
                    .kv("callableCopiesObserved", C.copiesMade).kv("nontrivialCases", C.nontrivialCases)
                    .raw("kinds", rt::jsonCounts(C.kinds)).raw("samples", rt::jsonArray(C.samples, false)));
